@@ -279,7 +279,7 @@ P(name="alloc_multiple", props={"C20": FUNC + FRAME, "C06": FUNC + FRAME, "C13":
   lib=MEMLIB, stubs=ALLOC_STUBS, contracts=["contracts/memory_utils.h"],
   harness="harness/memutils.c", defines=["H_ALLOC_MULTIPLE"], enforce="_cbor_alloc_multiple",
   replace=["_cbor_safe_to_multiply"], backend="cvc5",
-  must_exist=[r"_cbor_alloc_multiple\.postcondition\.7"])
+  must_exist=[r"_cbor_alloc_multiple\.postcondition\.8"])
 
 P(name="realloc_multiple", props={"C20": [], "C12": [], "C06": [], "C13": [], "C01": SAFETY},
   lib=MEMLIB, stubs=ALLOC_STUBS, contracts=["contracts/memory_utils.h"],
@@ -569,7 +569,10 @@ CONT("cbor_array_replace", ["H_ARRAY_REPLACE"], replace=["cbor_incref", "cbor_in
 # cbor_array_set: specification asserted in the harness over the contracts of push and replace (see harness/ops.c)
 P(name="cont_array_set", props={"C12": [], "C04": [], "C06": [], "C01": SAFETY}, lib=ITEMLIB, stubs=ITEM_STUBS + ["stubs/decref_ghost.c"],
   contracts=CONT_CONTRACTS, harness="harness/ops.c", defines=["H_ARRAY_SET"], enforce=None, also_verified=["cbor_array_set"],
-  replace=["cbor_array_push", "cbor_array_replace"], must_exist=[r"cbor_array_push\.precondition\.\d+"], min_covers=4, cost=120, timeout=900)
+  # push and replace are verified inlined here (their own contracts are discharged by cont_array_push / cont_array_replace):
+  # replacing both by contract ran out of memory
+  replace=["_cbor_safe_to_multiply", "cbor_intermediate_decref/cbor_intermediate_decref__child"],
+  must_exist=[r"cbor_intermediate_decref.*\.precondition\.\d+"], min_covers=4, cost=120, timeout=900, mem_gb=20)
 CONT("cbor_new_indefinite_map", ["H_CTOR", "CALL=cbor_new_indefinite_map()"], must=4, covers=2, cost=3)
 # Maps: bounded stand-ins (pair storage of at most 4 pairs; everything else symbolic), see harness/mkitem.h mk_map.
 MAP_BOUND = "maps with capacity <= 4 pairs (all fill levels, definite and indefinite, growth 0->1->2->4->8)"
@@ -856,7 +859,7 @@ for kind, extra in (("INT", ["VERIF_INT_TYPE=CBOR_TYPE_NEGINT"]), ("FLOAT_CTRL",
 # definite string heads: chunk of an open chunked string of the same major type, or a complete item
 STRCB_REPLACE = ["_cbor_builder_append/_cbor_builder_append__handover", "cbor_new_definite_bytestring", "cbor_new_definite_string",
                  "cbor_bytestring_add_chunk/cbor_bytestring_add_chunk__cb", "cbor_string_add_chunk/cbor_string_add_chunk__cb",
-                 "cbor_decref/cbor_decref__chunk", "_cbor_unicode_codepoint_count"]
+                 "cbor_decref/cbor_decref__chunk", "_cbor_unicode_codepoint_count/_cbor_unicode_codepoint_count__plain"]
 for cbname, isbytes, typ in (("byte_string", True, "CBOR_TYPE_BYTESTRING"), ("string", False, "CBOR_TYPE_STRING")):
     for top in ("SIMPLE", "BYTESTRING", "STRING"):
         P(name="cb_%s_top_%s" % (cbname, top.lower()), props=dict(CB_PROPS, C16=[]), lib=BUILDLIB, stubs=BUILD_STUBS,
@@ -879,3 +882,33 @@ for nm, d, fn in (("cont_map_add_key_lemma", "H_MAP_ADD_KEY", "_cbor_map_add_key
     P(name=nm, tier="thorough", props={"C12": SAFETY, "C04": [], "C06": SAFETY, "C20": [], "C13": [], "C01": SAFETY}, lib=ITEMLIB,
       stubs=ITEM_STUBS + ["stubs/decref_ghost.c"], contracts=CONT_CONTRACTS, harness="harness/ops.c", defines=[d, "MAP_LEMMA"],
       enforce=None, also_verified=[fn, "_cbor_map_add_value"], replace=["_cbor_safe_to_multiply"], min_covers=7, cost=200, timeout=900, mem_gb=24)
+
+# cbor_load: goto-instrument 6.11 runs out of memory on ANY loop contract for cbor_load (do-while with gotos to a label
+# behind the loop), so both loops are unwound: BOUNDED stand-in - runs of at most 3 heads, failing at depth <= 3.  Because
+# K' hands back an arbitrary state satisfying its postcondition, iterations 2 and 3 start from arbitrary invariant states.
+# The streaming decoder with the builder table is the ASSUMED contract K' (contracts/load.h).
+P(tier="experimental", name="load_loops_bounded", kind="bounded", bound="at most 3 item heads per run; stack depth <= 3 when a run fails",
+  props={"C05": FUNC + FRAME, "C14": FUNC, "C01": SAFETY, "C02": FUNC, "C19": [], "C04": []},
+  lib=LOADLIB, stubs=BUILD_STUBS, contracts=BUILD_CONTRACTS + ["contracts/load.h"], harness="harness/load.c",
+  defines=["H_LOAD_LOOP", "VERIF_LOAD_DEPTH_BOUND=3"], enforce="cbor_load",
+  replace=["cbor_stream_decode/cbor_stream_decode__load", "cbor_decref/cbor_decref__owned", "_cbor_stack_pop/_cbor_stack_pop__hered", "_cbor_stack_init"],
+  cbmc_flags=[f for f in __import__("vlib.driver", fromlist=["STD_CHECKS"]).STD_CHECKS if f != "--unwinding-assertions"] + ["--no-unwinding-assertions"],
+  unwindset="cbor_load_wrapped_for_contract_checking.0:4,cbor_load_wrapped_for_contract_checking.1:4",
+  must_exist=[r"cbor_load\.postcondition\.4"], min_covers=7, cost=120, timeout=900, object_bits=10,
+  assumed=["K' = contract cbor_stream_decode__load (contracts/load.h): composition of the C08 contract with the builder callback "
+           "transitions, and A9 (cbor_load's static table holds the builder callbacks); not machine-checked"])
+
+# cbor_serialize_map, lemma style (the loop is still closed by its loop contract; children through the twin)
+P(name="ser_map_lemma", props={"C03": ["loop"], "C07": ["loop"], "C18": [], "C01": SAFETY}, lib=SERLIB, stubs=SER_STUBS,
+  contracts=SER_CONTRACTS, harness="harness/serialize.c",
+  defines=["SER_KIND_MAP", "SER_FN=cbor_serialize_map", "VERIF_FIXED_NODES", "SER_LEMMA"], enforce=None,
+  also_verified=["cbor_serialize_map"], twins=SER_TWINS, replace=list(SER_TWINS.values()) + ENC_ALL,
+  loops="loops/serialization.json", loop_fingerprint={"cbor_serialize_map": 1},
+  must_exist=[r"cbor_serialize_map\.loop_invariant_step\.\d+"], min_covers=4, cost=200, timeout=900, object_bits=10, mem_gb=20)
+
+# cbor_decref on a map, lemma style: loop contract over the pair storage + harness assertions, frame not enforced
+P(name="decref_map_lemma", props={"C04": ["loop"], "C13": [], "C01": SAFETY + ["loop"], "C06": []},
+  lib=ITEMLIB, stubs=ITEM_STUBS + ["stubs/decref_ghost.c"], contracts=DECREF_CONTRACTS, harness="harness/decref.c",
+  defines=["KIND_MAP", "VERIF_FIXED_NODES"], enforce=None, also_verified=["cbor_decref"], twins={"cbor_decref": "cbor_decref__child"},
+  replace=["cbor_decref__child"], loops="loops/decref.json", loop_fingerprint={"cbor_decref": 4},
+  must_exist=[r"cbor_decref\.loop_invariant_step\.\d+"], min_covers=2, cost=200, timeout=900, object_bits=10, mem_gb=20)
